@@ -20,6 +20,7 @@ r1 = [m for m in metas if m.get("round") == 1]
 r2 = [m for m in metas if m.get("round") == 2]
 r3 = [m for m in metas if m.get("round") == 3]
 r4 = [m for m in metas if m.get("round") == 4]
+r5 = [m for m in metas if m.get("round") == 5]
 
 
 def verdict(m, label=""):
@@ -32,6 +33,7 @@ r1_first = sum(1 for m in r1 if "first built" in m.get("history", ""))
 r2_before = sum(1 for m in r2 if verdict(m, "before-round2-strengthening") == "CAUGHT")
 r3_before = sum(1 for m in r3 if verdict(m, "before-round3-strengthening") == "CAUGHT")
 r4_before = sum(1 for m in r4 if verdict(m, "before-round4-strengthening") == "CAUGHT")
+r5_before = sum(1 for m in r5 if verdict(m, "before-round5-strengthening") == "CAUGHT")
 missed_now = [m["id"] for m in metas if verdict(m) != "CAUGHT"]
 table = subprocess.run(["python3", os.path.join(VERIF, "tools", "seeded_table.py")], stdout=subprocess.PIPE).stdout.decode()
 s += f'''
@@ -39,7 +41,7 @@ s += f'''
 
 ## 12. Seeded changes: which check catches which change
 
-{n} changes to gldap (eight per property, in four rounds) were produced by fresh
+{n} changes to gldap (eight per property in four rounds, and a fifth round of one more for eight properties) were produced by fresh
 sub-agents that were given **only the text of one property** and a scratch
 worktree of `/repo` - nothing from `/verif` - and asked for a change that still
 compiles, still passes the repository's suite and breaks the property in a way
@@ -76,6 +78,12 @@ tier as it stood after round 3 (checkout at `eae04cf`; evaluated in parallel
 *lanes* - pairs of scratch worktrees of `/repo` and `/verif`, `tools/lanes.sh`,
 `tools/seeded.py run --repo --check-dir` - so that four changes can be evaluated
 at once without touching `/repo`): {r4_before} caught, {len(r4) - r4_before} missed.
+**Round 5** ({len(r5)} changes, for the eight properties whose round-4 changes had
+been missed most, against the checks as strengthened by round 4): {r5_before} caught,
+{len(r5) - r5_before} missed (C09-i: a handler that outlives its connection while its
+connection state is recycled; C10-i: a handler busy for more than 3 s behind
+the Unbind; C14-i: decoding with a debug-level logger; C17-i: a port held on one
+address family only) - all caught after the additions of §9.1.
 The misses were not accidents of the seed; each pointed at a region of the
 property's own domain that the generator did not reach. The checks were
 strengthened by widening the *generators and scenario families* along the
